@@ -29,11 +29,11 @@ CHECKS = {
          "Trusted: the AST-level notion of call target; reachability uses the implementation's edges (C03).",
          "DESIGN.md 3 C11"),
  "C12": ("explicit-state model checking (stateright BFS) of the pass pipeline as a transition system whose transitions call the real passes; state = canonical dump",
-         "Per program, stateright explores breadth-first the transition system {AvailableValuePass::run, EcallTerminationPass::run, LivenessPass::run} over the finished graph to depth 3/5 with the invariant 'every reachable state (canonical dump of edges, six fact maps, function annotations, diagnostics) equals the initial state'; plus: a second analysis of the same program yields the same dump, and every pass run of the standard pipeline needs at most 4*nodes+32 sweeps (hook H6 aborts beyond).",
-         "Trusted: the canonical dump covers everything the passes read (states with equal dumps are merged). Canonical hash-order schedule only.",
+         "Per program, stateright explores breadth-first the transition system {AvailableValuePass::run, EcallTerminationPass::run, LivenessPass::run} over the finished graph to depth 3/5 with the invariant 'every reachable state (canonical dump of edges, six fact maps, function annotations, diagnostics) equals the initial state'; plus: a second analysis of the same program yields the same dump, also under every hash-order schedule with at most one deviation from the canonical order (stateless re-execution under the choice-point hook; full schedule tree when it has <= 24 runs), and every pass run of the standard pipeline needs at most 4*nodes+32 sweeps (hook H6 aborts beyond).",
+         "Trusted: the canonical dump covers everything the passes read (states with equal dumps are merged). The pass-sequence exploration runs under the canonical hash-order schedule; other schedules are covered up to one deviation by the second-analysis comparison.",
          "DESIGN.md 3 C12"),
  "C01": ("bounded-exhaustive program enumeration; each program analysed by the real pipeline and executed by a reference RV32IM interpreter with an activation monitor from every initial state; every claim evaluated on every step",
-         "Explicit-state exploration of (program, initial state, step): every program of the kernel family (single-transfer: each of ~1650 instructions after every state-setting prefix of length <= 1 quick / <= 2 thorough; all sequences over a 27-symbol alphabet (incl. sub-word stack accesses) up to length 3/4; all control-flow sequences over 12/14 symbols up to length 4/5; 16 loop/diamond/irreducible/recursion/multi-return/exit-ecall/backward-cycle skeletons; CSR sequences (13 symbols, length <= 4/5) and extreme-stack sequences (8 symbols); each as main program and as called function) is analysed by the real Manager::gen_full_cfg and executed by the harness's interpreter from 8/32 initial states to exit or a 256-step horizon; at every arrival/departure every Constant / Address / entry-value+k claim on registers and stack slots is compared with the machine. The model (interpreter) trace is bound 1:1 to the implementation's CFG nodes.",
+         "Explicit-state exploration of (program, initial state, step): every program of the kernel family (single-transfer: each of ~1650 instructions after every state-setting prefix of length <= 1 quick / <= 2 thorough; all sequences over a 27-symbol alphabet (incl. sub-word stack accesses) up to length 3/4; all control-flow sequences over 12/14 symbols up to length 4/5; 19 loop/diamond/irreducible/recursion/multi-return/exit-ecall/backward-cycle/callee-result-in-tp skeletons; CSR sequences (13 symbols, length <= 4/5) and extreme-stack sequences (8 symbols); each as main program and as called function) is analysed by the real Manager::gen_full_cfg and executed by the harness's interpreter from 8/32 initial states to exit or a 256-step horizon; at every arrival/departure every Constant / Address / entry-value+k claim on registers and stack slots is compared with the machine. The model (interpreter) trace is bound 1:1 to the implementation's CFG nodes.",
          "Trusted: the reference interpreter (two cross-checked ALUs) and the activation monitor that stops checking where an execution leaves the property's supported subset. Programs longer than the bounds, immediates outside the alphabets and the un-named claim kinds (memory-at-register, CSR) are not covered.",
          "DESIGN.md 3 C01"),
  "C04": ("bounded-exhaustive enumeration of convention-conforming programs (by construction, confirmed per member by a dynamic convention monitor); oracle: zero diagnostics",
@@ -49,16 +49,16 @@ CHECKS = {
          "Termination is decided by work bounds (pass sweeps <= 4*nodes+32, <= 64 import requests) and wall watchdogs (10 s CLI, 120 s per case); polynomial time is checked as absolute envelopes at three scales, not proved.",
          "DESIGN.md 3 C06"),
  "C07": ("bounded-exhaustive enumeration of files over a line alphabet; coverage oracle by independent locator, containment oracle differential (file vs file with the bad line deleted)",
-         "All files of 1..4 (quick) / 1..5 (thorough) lines over 23 line kinds (9 well-formed, 14 malformed) x {LF, CRLF} x {final newline, none} x {single file, tail in an included file} go through the real lexer+parser; every line with content must be the line (by raw offset, via the harness's own locator) of a node or of a parse error, well-formed lines draw no error, and for every malformed line the nodes/errors of all other lines equal those of the file with that line deleted.",
-         "Trusted: locator; the 23 line kinds are representatives (one statement per line).",
+         "All files of 1..4 (quick) / 1..5 (thorough) lines over 24 line kinds (10 well-formed incl. a .float list, 14 malformed) x {LF, CRLF} x {final newline, none} x {single file, tail in an included file} go through the real lexer+parser; every line with content must be the line (by raw offset, via the harness's own locator) of a node or of a parse error, well-formed lines draw no error, and for every malformed line the nodes/errors of all other lines equal those of the file with that line deleted.",
+         "Trusted: locator; the 24 line kinds are representatives (one statement per line).",
          "DESIGN.md 3 C07"),
  "C08": ("bounded-exhaustive enumeration of the decode table and folding grid against an independent RV32IM reference (explicit-state, model = manual's decode table + ALU)",
-         "Complete enumeration of a finite space: every entry of a decode table transcribed from the RISC-V manual (mnemonic x operand form x 7 registers per position x boundary immediates; ~13k texts) is parsed by the real parser and compared with the manual's meaning - structurally, or, for pseudo-instructions, by executing both on every pair of a 66-value boundary grid; every foldable mnemonic x every grid pair goes through the real MathOp::operate in a release and an overflow-checked build. Model traces (expected instruction / ALU result) are compared 1:1 with the implementation.",
+         "Complete enumeration of a finite space: every entry of a decode table transcribed from the RISC-V manual (mnemonic x operand form x 7 registers per position x boundary immediates, incl. the absolute-address store `s* rs2, ADDRESS, tmp` over 16 addresses around bit 11; ~13k texts) is parsed by the real parser and compared with the manual's meaning - structurally, or, for pseudo-instructions, by executing both on every pair of a 66-value boundary grid; every foldable mnemonic x every grid pair goes through the real MathOp::operate in a release and an overflow-checked build. Model traces (expected instruction / ALU result) are compared 1:1 with the implementation.",
          "Trusted: the hand-transcribed decode table and the two cross-checked reference ALUs; register/immediate choices are representatives, not all 32^3 combinations.",
          "DESIGN.md 3 C08"),
 
  "C13": ("bounded-exhaustive enumeration of (program x subset of meaning-preserving rewrites); relational oracle: diagnostic multiset by (code, statement index, operand role) invariant",
-         "Program pool (every 293rd / 41st member of the quick S family, clean and with one injected violation of each of 17 classes) x every compatible subset of <= 2 / <= 3 of 13 rewrite kinds (spacing, tabs, commas removed/doubled, comments, blank lines, mnemonic case, xN register names, hex/binary immediates, label placement, omitted zero offset, pseudo-instruction vs expansion), applied at all sites by a styled printer working on the harness AST; the multiset of (error code, statement index, semantic operand role) of the real pipeline's diagnostics must equal the plain rendering's.",
+         "Program pool (every 293rd / 41st member of the quick S family, clean and with one injected violation of each of 17 classes, plus hand-written programs: a data list continued over lines, two interrupt handlers installed through utvec) x every compatible subset of <= 2 / <= 3 of 13 rewrite kinds (spacing, tabs, commas removed/doubled, comments, blank lines, mnemonic case, xN register names, hex/binary immediates, label placement, omitted zero offset, pseudo-instruction vs expansion), applied at all sites by a styled printer working on the harness AST; the multiset of (error code, statement index, semantic operand role) of the real pipeline's diagnostics must equal the plain rendering's.",
          "Trusted: styled printer and role mapping (implicit registers of pseudo-instructions are identified with the explicit operand of their expansion). Rewrites outside the list (macros, .eqv) are unsupported by the tool.",
          "DESIGN.md 3 C13"),
  "C14": ("bounded-exhaustive enumeration of register-class permutation orbits and label renamings per template; relational (equivariance) oracle",
